@@ -10,7 +10,6 @@ import (
 	"sort"
 	"strings"
 	"testing"
-	"testing/synctest"
 	"time"
 
 	"github.com/ethereum/go-ethereum/common"
@@ -51,7 +50,7 @@ func runC39(t *testing.T, pl any) *simcore.Result {
 	// of the chain may shift sequence numbers between executions); fall back to
 	// every cut of a few re-executions.
 	res := runC39Once(t, p)
-	if res.Violation != nil {
+	if res.Violation != nil || os.Getenv("CHAINSIM_NO_FALLBACK") != "" {
 		return res
 	}
 	for attempt := 0; attempt < 3; attempt++ {
@@ -412,6 +411,8 @@ type rebooter struct {
 	draw    int
 	lost    int
 	headNum uint64
+	// read from the image before the chain touches it
+	imgFrozen, imgHeader, imgFinal uint64
 }
 
 func (rb *rebooter) modeKey() string {
@@ -468,10 +469,12 @@ func (rb *rebooter) run(model *simdisk.FSModel, img map[string][]byte, mem *memo
 		w.db = db
 		// what the image durably holds, read before the chain touches it
 		bound, boundWhy = rb.noLossBound(db)
-		if os.Getenv("CHAINSIM_FREEZER_FIRST") != "" {
-			synctest.Wait()
-		}
 		rb.probeRewindWindow(db)
+		rb.imgFrozen, _ = db.Ancients()
+		rb.imgHeader = headNumber(db)
+		if fh := rawdb.ReadFinalizedBlockHash(db); fh != (common.Hash{}) {
+			rb.imgFinal, _ = rawdb.ReadHeaderNumber(db, fh)
+		}
 		bc, err := core.NewBlockChain(db, rb.tree.gspec, rb.engine, rb.p.Knobs.configWait(nroot, false))
 		if err != nil {
 			v := viol("reboot-chain-failed", "NewBlockChain on the crash image failed: %v", err)
@@ -596,7 +599,17 @@ func (rb *rebooter) judge(w *world, bound int64, boundWhy string) *simcore.Viola
 	if frozen > 0 {
 		rb.res.Probe("rebooted-with-frozen-blocks")
 		if frozen > cv.hdr+1 {
-			return viol("reboot-freezer-beyond-head", "freezer holds %d blocks but the header head is #%d after reboot", frozen, cv.hdr)
+			v := viol("reboot-freezer-beyond-head", "freezer holds %d blocks but the header head is #%d after reboot", frozen, cv.hdr)
+			if rb.imgFrozen <= rb.imgHeader+1 && rb.imgFinal > rb.imgHeader {
+				// the image itself was fine (freezer not beyond the head header marker) but its
+				// finalized marker is above the head (SetHead clears it only at the very end): the
+				// chain freezer started by rawdb.Open takes it as threshold and freezes the leftover
+				// canonical blocks above the head while NewBlockChain is starting; whether
+				// NewBlockChain's "Truncating ancient chain" step sees them is a race
+				v.Key = "reboot-freezer-beyond-head:finalized-marker-above-head-after-interrupted-sethead"
+				v.Msg += fmt.Sprintf(" (image: %d frozen, head header #%d, finalized #%d)", rb.imgFrozen, rb.imgHeader, rb.imgFinal)
+			}
+			return v
 		}
 	}
 	// 7: reach the twin's head again
